@@ -8,6 +8,7 @@ package main
 
 import (
 	"fmt"
+	"io"
 	"os"
 	"runtime"
 	"sort"
@@ -418,6 +419,24 @@ func runOneHistory(cfg ConcCfg, seed uint64, cas, h int, res *ConcRes) {
 			}
 		}(c, crng)
 	}
+	statsStop := make(chan struct{})
+	if cfg.NoCheck {
+		// C14: statistics are read (and reset) while requests are served
+		go func() {
+			for k := 0; ; k++ {
+				select {
+				case <-statsStop:
+					return
+				default:
+				}
+				srv.N.WriteOpStats(io.Discard)
+				if k%4 == 3 {
+					srv.N.ResetOpStats()
+				}
+				runtime.Gosched()
+			}
+		}()
+	}
 	go func() { wg.Wait(); close(done) }()
 	select {
 	case <-done:
@@ -442,7 +461,15 @@ func runOneHistory(cfg ConcCfg, seed uint64, cas, h int, res *ConcRes) {
 			emitAndExit(out)
 		}
 	}
+	close(statsStop)
 	ls := mon.Stats()
+	if cfg.NoCheck && h%2 == 1 {
+		// C14: shut down and restart while the shrinker may still be running
+		mon.Off()
+		srv.Shutdown()
+		srv = StartSrv(d, srv.Opts)
+		mon.Reset(0, true)
+	}
 	srv.WaitIdle()
 	fr := srv.Fsck(FsckOpts{CheckCaches: true})
 	if len(fr.Errs) > 0 {
